@@ -465,6 +465,7 @@ def gen_refs_nonlinear_solve(repo, outdir):
                 'Definition afs_mesh_fields_missing : list string := %s.\nDefinition afs_mesh_fields_wrong : list string := %s.\n'
                 % (rel, clist(['\n   ' + c for c in calls]), clist(['\n   ' + u for u in unpack_rows]), clist(['\n   ' + a for a in attr_rows]),
                    rules[0], rules[1], fwd[0], fwd[1], cstr(afs[0]), cstr(afs[1]), cbool(afs[2]), clist([cstr(x) for x in afs[3]]), clist([cstr(x) for x in afs[4]])))
+        text += rule_semantics_text(repo, tree)      # C07 deepening: slot helpers / closures, restore kinds, forward rules (additive)
         write_if_changed(path, text)
         return {'Refs_NonlinearSolve': (True, 'ok', path)}
     except (ExtractError, SyntaxError, OSError, KeyError, IndexError, AttributeError) as ex:
@@ -649,3 +650,220 @@ def function_space_terms(repo):
     strip = lambda body: [s for s in body if not (isinstance(s, ast.Expr) and isinstance(s.value, ast.Constant))]
     dump = lambda body: ' ;; '.join(ast.unparse(_Norm().visit(ast.parse(ast.unparse(s)))) for s in strip(body))
     return dump(body_a), dump(fd.body), rebuild_ok, missing, extra + wrong
+
+
+# ============================================================================ C07 (additive): slot helpers / vjp closures of class Objective,
+# how each reverse rule re-establishes objective.p (with statement order), what the forward rules save.  Soft flags: an unrecognised shape
+# yields `false` fields (the Coq theorems then fail by computation), only a missing class / method raises.
+
+def _name(e, ident):
+    return isinstance(e, ast.Name) and e.id == ident
+
+
+def _self_attr_call(e):
+    """self.<attr>(args) -> (attr, args) else None"""
+    if isinstance(e, ast.Call) and isinstance(e.func, ast.Attribute) and _name(e.func.value, 'self') and not e.keywords:
+        return e.func.attr, e.args
+    return None
+
+
+def _jit_lambda(e, nparams):
+    """jit(lambda a, b, c: body) -> ([a, b, c], body) else None"""
+    if isinstance(e, ast.Call) and callee_name(e.func) == 'jit' and len(e.args) == 1 and isinstance(e.args[0], ast.Lambda):
+        lam = e.args[0]
+        names = [a.arg for a in lam.args.args]
+        if len(names) == nparams and not lam.args.defaults and lam.args.vararg is None and lam.args.kwarg is None:
+            return names, lam.body
+    return None
+
+
+def objective_closures(repo):
+    tree = ast.parse(open(os.path.join(repo, 'optimism/Objective.py')).read())
+    cls = None
+    for st in tree.body:
+        if isinstance(st, ast.ClassDef) and st.name == 'Objective':
+            cls = st
+    if cls is None:
+        raise ExtractError('class Objective not found')
+    methods = {m.name: m for m in cls.body if isinstance(m, ast.FunctionDef)}
+    if '__init__' not in methods:
+        raise ExtractError('Objective.__init__ not found')
+    init = methods['__init__']
+    iparams = [a.arg for a in init.args.args]
+    assigns = {}        # self.<attr> = value, top-level statements of __init__, last one wins; reassignment elsewhere in the class is recorded
+    for st in init.body:
+        if isinstance(st, ast.Assign) and len(st.targets) == 1 and isinstance(st.targets[0], ast.Attribute) and _name(st.targets[0].value, 'self'):
+            assigns[st.targets[0].attr] = st.value
+    stores_elsewhere = set()
+    for m in methods.values():
+        if m.name == '__init__':
+            continue
+        for n in ast.walk(m):
+            if isinstance(n, ast.Attribute) and _name(n.value, 'self') and isinstance(n.ctx, ast.Store):
+                stores_elsewhere.add(n.attr)
+
+    def method_passes(mname):
+        """def m(self, a, b): return self.<cl>(a, self.p, b)  -> (cl, True) ; else (cl or '', False)"""
+        m = methods.get(mname)
+        if m is None:
+            return '', False
+        ps = [a.arg for a in m.args.args]
+        body = [s for s in m.body if not (isinstance(s, ast.Expr) and isinstance(s.value, ast.Constant))]
+        if len(ps) != 3 or len(body) != 1 or not isinstance(body[0], ast.Return):
+            return '', False
+        c = _self_attr_call(body[0].value)
+        if c is None:
+            return '', False
+        attr, args = c
+        ok = (len(args) == 3 and _name(args[0], ps[1]) and isinstance(args[1], ast.Attribute) and _name(args[1].value, 'self') and args[1].attr == 'p'
+              and _name(args[2], ps[2]))
+        return attr, ok
+
+    rows = []
+    for k in (0, 1, 2, 4):
+        mname = 'vec_jacobian_p%d' % k
+        if mname not in methods:
+            raise ExtractError('Objective.%s not found' % mname)
+        clname, passes = method_passes(mname)
+        d = dict(defined=False, is_vjp=False, fun_ok=False, upd=99, primal_ok=False, primal=99, cot=False)
+        jl = _jit_lambda(assigns.get(clname), 3) if clname in assigns and clname not in stores_elsewhere else None
+        if jl is not None:
+            (x, p, vx), body = jl
+            d['defined'] = True
+            # vjp(<fun>, <primal>)[1](<cot>)
+            if (isinstance(body, ast.Call) and len(body.args) == 1 and not body.keywords and isinstance(body.func, ast.Subscript)
+                    and isinstance(body.func.slice, ast.Constant) and body.func.slice.value == 1 and isinstance(body.func.value, ast.Call)
+                    and callee_name(body.func.value.func) == 'vjp' and len(body.func.value.args) == 2 and not body.func.value.keywords):
+                d['is_vjp'] = True
+                fun, primal = body.func.value.args
+                d['cot'] = _name(body.args[0], vx)
+                if isinstance(fun, ast.Lambda) and len(fun.args.args) == 1:
+                    q = fun.args.args[0].arg
+                    c = _self_attr_call(fun.body)
+                    if c is not None and c[0] == 'grad_x' and len(c[1]) == 2 and _name(c[1][0], x) and q not in (x, p, vx, 'self'):
+                        u = c[1][1]
+                        if (isinstance(u, ast.Call) and callee_name(u.func) == 'param_index_update' and len(u.args) == 3 and not u.keywords
+                                and _name(u.args[0], p) and isinstance(u.args[1], ast.Constant) and isinstance(u.args[1].value, int)
+                                and _name(u.args[2], q)):
+                            d['fun_ok'] = True
+                            d['upd'] = u.args[1].value
+                if (isinstance(primal, ast.Subscript) and _name(primal.value, p) and isinstance(primal.slice, ast.Constant)
+                        and isinstance(primal.slice.value, int) and primal.slice.value >= 0):
+                    d['primal_ok'] = True
+                    d['primal'] = primal.slice.value
+        rows.append('{| vc_method := %s; vc_method_slot := %d; vc_closure := %s; vc_closure_defined := %s; vc_args_x_selfp_v := %s; vc_is_vjp := %s;\n'
+                    '      vc_fun_is_grad_x_of_update := %s; vc_update_slot := %d; vc_primal_is_p_slot := %s; vc_primal_slot := %d; vc_cot_is_third := %s |}'
+                    % (cstr(mname), k, cstr(clname), cbool(d['defined']), cbool(passes), cbool(d['is_vjp']), cbool(d['fun_ok']), d['upd'],
+                       cbool(d['primal_ok']), d['primal'], cbool(d['cot'])))
+    # hessian_vec: self.hess_vec(x, self.p, vx) with hess_vec = jit(lambda x, p, vx: jvp(lambda z: self.grad_x(z, p), (x,), (vx,))[1])
+    hvname, hv_passes = method_passes('hessian_vec')
+    hv_ok = False
+    jl = _jit_lambda(assigns.get(hvname), 3) if hvname in assigns and hvname not in stores_elsewhere else None
+    if jl is not None:
+        (x, p, vx), body = jl
+        if (isinstance(body, ast.Subscript) and isinstance(body.slice, ast.Constant) and body.slice.value == 1 and isinstance(body.value, ast.Call)
+                and callee_name(body.value.func) == 'jvp' and len(body.value.args) == 3 and not body.value.keywords):
+            fun, pr, tg = body.value.args
+            one = lambda t, nm: isinstance(t, ast.Tuple) and len(t.elts) == 1 and _name(t.elts[0], nm)
+            if isinstance(fun, ast.Lambda) and len(fun.args.args) == 1 and one(pr, x) and one(tg, vx):
+                z = fun.args.args[0].arg
+                c = _self_attr_call(fun.body)
+                hv_ok = c is not None and c[0] == 'grad_x' and len(c[1]) == 2 and _name(c[1][0], z) and _name(c[1][1], p) and z not in (x, p, vx, 'self')
+    # self.grad_x = jit(grad(f, 0)) with f the first parameter of __init__ after self
+    gx = assigns.get('grad_x')
+    gx_ok = (isinstance(gx, ast.Call) and callee_name(gx.func) == 'jit' and len(gx.args) == 1 and isinstance(gx.args[0], ast.Call)
+             and callee_name(gx.args[0].func) == 'grad' and len(gx.args[0].args) == 2 and len(iparams) >= 2 and _name(gx.args[0].args[0], iparams[1])
+             and isinstance(gx.args[0].args[1], ast.Constant) and gx.args[0].args[1].value == 0 and 'grad_x' not in stores_elsewhere)
+    return rows, (hv_passes and hv_ok), gx_ok
+
+
+def restore_kind(tree, name):
+    """how <name> (a reverse rule) re-establishes objective.p, and whether that happens before the adjoint solve, the Hessian-vector
+    closure and every slot product are evaluated (top-level statements only, in source order)"""
+    fn = find_func(tree, name)
+    obj, _, rdata, _ = [a.arg for a in fn.args.args]
+    saved = None
+    for st in fn.body:
+        if isinstance(st, ast.Assign) and _name(st.value, rdata) and isinstance(st.targets[0], ast.Tuple) and len(st.targets[0].elts) == 2:
+            saved = st.targets[0].elts[1].id
+    kind, at = 'RestoreNone', None
+    first_use = None
+    for i, st in enumerate(fn.body):
+        if isinstance(st, ast.Assign) and len(st.targets) == 1 and _is_obj_attr(st.targets[0], obj, 'p'):
+            val = st.value
+            if kind != 'RestoreNone':
+                return 'RestoreNone'        # assigned twice: not the recognised shape
+            if _name(val, saved):
+                kind, at = 'RestoreSaved', i
+            elif (isinstance(val, ast.Call) and callee_name(val.func) == 'param_index_update' and len(val.args) == 3 and _is_obj_attr(val.args[0], obj, 'p')
+                  and isinstance(val.args[1], ast.Constant) and isinstance(val.args[1].value, int) and _name(val.args[2], saved)):
+                kind, at = 'RestoreSlot %d' % val.args[1].value, i
+            else:
+                return 'RestoreNone'
+            continue
+        # first statement that evaluates something on the objective (a call on it; defining the lambda does not evaluate it)
+        uses = False
+        for n in ast.walk(st):
+            if isinstance(n, ast.Lambda):
+                continue
+            if isinstance(n, ast.Call):
+                for sub in ast.walk(n):
+                    if isinstance(sub, ast.Name) and sub.id == obj:
+                        uses = True
+                if callee_name(n.func) == 'solve_trust_region_minimization':
+                    uses = True
+        # nested lambdas reference the objective lazily; ast.walk above still descends into them, which only makes `uses` true earlier (safe side)
+        if uses and first_use is None:
+            first_use = i
+    if kind == 'RestoreNone' or (first_use is not None and first_use < at):
+        return 'RestoreNone'
+    return kind
+
+
+def forward_rule_ok(tree, name, primal):
+    """def <name>(a, b, c, d): Uu = <primal>(a, b, c, d); return Uu, (Uu, d)"""
+    fn = find_func(tree, name)
+    ps = [a.arg for a in fn.args.args]
+    body = [s for s in fn.body if not (isinstance(s, ast.Expr) and isinstance(s.value, ast.Constant))]
+    if len(ps) != 4 or len(body) != 2 or not isinstance(body[0], ast.Assign) or not isinstance(body[1], ast.Return):
+        return False
+    a, r = body
+    if not (len(a.targets) == 1 and isinstance(a.targets[0], ast.Name) and isinstance(a.value, ast.Call) and _name(a.value.func, primal)
+            and not a.value.keywords and len(a.value.args) == 4 and all(_name(x, p) for x, p in zip(a.value.args, ps))):
+        return False
+    u = a.targets[0].id
+    rv = r.value
+    return (isinstance(rv, ast.Tuple) and len(rv.elts) == 2 and _name(rv.elts[0], u) and isinstance(rv.elts[1], ast.Tuple) and len(rv.elts[1].elts) == 2
+            and _name(rv.elts[1].elts[0], u) and _name(rv.elts[1].elts[1], ps[3]))
+
+
+def defvjp_pairs(tree):
+    """top-level <primal>.defvjp(<fwd>, <bwd>) statements"""
+    out = []
+    for st in tree.body:
+        if isinstance(st, ast.Expr) and isinstance(st.value, ast.Call) and isinstance(st.value.func, ast.Attribute) and st.value.func.attr == 'defvjp' \
+                and isinstance(st.value.func.value, ast.Name) and len(st.value.args) == 2 and all(isinstance(a, ast.Name) for a in st.value.args):
+            out.append((st.value.func.value.id, st.value.args[0].id, st.value.args[1].id))
+    return out
+
+
+def rule_semantics_text(repo, tree):
+    rows, hv_ok, gx_ok = objective_closures(repo)
+    pairs = defvjp_pairs(tree)
+    want = [('nonlinear_solve', 'nonlinear_solve_f', 'nonlinear_solve_b'),
+            ('nonlinear_solve_with_state', 'nonlinear_solve_with_state_f', 'nonlinear_solve_with_state_b')]
+    reg = all(w in pairs for w in want) and len(pairs) == len(want)
+    return ('\n(* --- slot helpers of class Objective (vec_jacobian_p<k> and the jitted vjp closure each one calls), hessian_vec, grad_x;\n'
+            '       how each reverse rule re-establishes objective.p (RestoreNone also when that is not done before the first evaluation on the objective);\n'
+            '       what the forward rules save; the defvjp registrations --- *)\n'
+            'Definition objective_vjp_closures : list vjpclosure :=\n  %s.\n'
+            'Definition objective_hessian_vec_is_jvp_of_grad_x_at_self_p : bool := %s.\n'
+            'Definition objective_grad_x_is_grad_of_f_arg0 : bool := %s.\n'
+            'Definition restore_nonlinear_solve_b : restore_kind := %s.\n'
+            'Definition restore_nonlinear_solve_with_state_b : restore_kind := %s.\n'
+            'Definition fwd_nonlinear_solve_saves_solution_and_design : bool := %s.\n'
+            'Definition fwd_nonlinear_solve_with_state_saves_solution_and_params : bool := %s.\n'
+            'Definition defvjp_registrations_ok : bool := %s.\n'
+            % (clist(['\n   ' + r for r in rows]), cbool(hv_ok), cbool(gx_ok), restore_kind(tree, 'nonlinear_solve_b'),
+               restore_kind(tree, 'nonlinear_solve_with_state_b'), cbool(forward_rule_ok(tree, 'nonlinear_solve_f', 'nonlinear_solve')),
+               cbool(forward_rule_ok(tree, 'nonlinear_solve_with_state_f', 'nonlinear_solve_with_state')), cbool(reg)))
